@@ -423,7 +423,9 @@ class Assembler:
             for extra_block in extra_blocks:
                 assert isinstance(extra_block, gtirb.CodeBlock)
                 assert not extra_block.size
-                assert extra_block not in self._state.block_types
+                # An empty string directive (.ascii "") leaves an empty block
+                # with a type; it has no bytes for the type to describe.
+                self._state.block_types.pop(extra_block, None)
 
                 for edge in list(self._state.cfg.in_edges(extra_block)):
                     assert isinstance(edge.source, gtirb.CodeBlock)
